@@ -96,6 +96,11 @@ def cases(tier, seed):
     for table in range(3):
         for nozero in (False, True):
             yield dict(kind='mef-fitted', table=table, nozero=nozero)
+    # (C3) a calibration (with and without its figures) run on the RFI sample before that sample is converted: limits must still be
+    # where the limit events are, before and after
+    for plot in (False, True):
+        for amp in ('lin', 'log'):
+            yield dict(kind='calibration-history', plot=plot, amp=amp)
     # (D) generic transform with NumPy functions
     for fn in ('log10', 'sqrt', 'double', 'log10p1', 'exp2'):
         yield dict(kind='transform', fn=fn)
@@ -215,7 +220,8 @@ def run_case(c):
             res.sample({'kind': k, 'a0': c['a0'], 'a1': c['a1'], 'resolutions': c['res'], 'channel_subsets': subsets(3)})
         elif k == 'rfi-lin':
             d = make_sample(c['res'], ['0,0'] * 3, c['gains'])
-            for sub in ([c['sub']] if 'sub' in c else subsets(3)):
+            # a channel named twice is converted twice -- events and limits alike (linear amplifiers: the values stay finite)
+            for sub in ([c['sub']] if 'sub' in c else subsets(3) + [[0, 0], [1, 2, 1], [2, 0, 2, 0]]):
                 one = dict(c, sub=sub)
                 for spelled in FORMS:
                     chans = spell(sub, spelled)
@@ -294,6 +300,47 @@ def run_case(c):
                         res.violation('mef-fitted:order', '%s: gating before the conversion and after it give different samples (%d vs %d events; values bitwise equal: %s)' % (
                             what, g1.shape[0], g2.shape[0], g1.shape == g2.shape and bool(np.array_equal(np.asarray(g1), np.asarray(g2)))), one)
             res.sample({'kind': k, 'bead_table': c['table'], 'no_zero_events': c['nozero']})
+        elif k == 'calibration-history':
+            import matplotlib
+            matplotlib.use('Agg')
+            import matplotlib.pyplot as plt
+            if c['amp'] == 'lin':
+                d0 = make_sample([1024, 4096, 1000], ['0,0'] * 3, [1, 4.0, None], tag='h')
+            else:
+                d0 = make_sample([1024, 1024, 256], ['4,1', '4.5,0', '0,0'], tag='h')
+            d = FlowCal.transform.to_rfi(d0)
+            before = [bits(x) for r in d.range() for x in r]
+            n = d.shape[0]
+            order = np.argsort(np.asarray(d[:, 0]), kind='stable')
+            labels = np.empty(n, dtype=int)
+            labels[order] = np.arange(n) * 4 // n           # four stub populations by brightness of channel 0
+            scs = {0: curve(1.05, 2.0), 1: curve(0.97, 3.1)}
+            calls = []
+
+            def fit(fl_rfi, fl_mef, calls=calls):
+                j = len(calls)
+                calls.append(j)
+                return (scs[j], scs[j], [1.0, 2.0, 0.0], 'stub', ['m', 'b', 'auto'])
+            what = 'get_transform_fxn(plot=%r) on a sample converted to RFI (%s amplifiers), then to_mef' % (c['plot'], c['amp'])
+            try:
+                tf = FlowCal.mef.get_transform_fxn(d, [[0.0, 100.0, 1000.0, 10000.0], [0.0, 200.0, 2000.0, 20000.0]], [0, 1],
+                                                   clustering_fxn=lambda data, n_clusters, **kw: labels, clustering_channels=[0, 1],
+                                                   selection_fxn=None, fitting_fxn=fit, plot=c['plot'], plot_dir=scratch() if c['plot'] else None,
+                                                   plot_filename='c07beads')
+            except Exception as e:
+                res.violation('calibration-history:raises:%s' % type(e).__name__, '%s raised %s: %s' % (what, type(e).__name__, e), dict(c))
+                return res
+            finally:
+                plt.close('all')
+            after = [bits(x) for r in d.range() for x in r]
+            if after != before:
+                res.violation('calibration-history:limits-changed', '%s: the calibration changed the range limits of the sample it was given to %r' % (what, d.range()), dict(c))
+                return res
+            for sub in ([0], [1], [0, 1]):
+                t = tf(d, sub)
+                if check_limits(res, what + ' (channels %r)' % sub, 'calibration-history', d, t, sub, dict(c), 3):
+                    res.ok('calibration-history', True)
+            res.sample({'kind': k, 'plot': c['plot'], 'amplifiers': c['amp']})
         elif k == 'transform':
             d = make_sample([1024, 4096, 256], ['0,0'] * 3)
             fn = FNS[c['fn']]
